@@ -199,6 +199,8 @@ pub struct NetInner {
     pub ends: [EndState; 2],
     pub events: Vec<(u64, NetEvent)>,
     pub step: u64,
+    /// transport calls made since the executor last started to poll a task (livelock detector)
+    pub calls_this_poll: u64,
     /// default send credit for pipes whose writer is `side`
     pub default_credit: [u64; 2],
     /// a close issued by `side` not yet delivered to the other end
@@ -239,11 +241,32 @@ impl Net {
             default_credit: [UNLIMITED, UNLIMITED],
             close_inflight: [None, None],
             faults: Vec::new(),
+            calls_this_poll: 0,
         })))
     }
 
     pub fn lock(&self) -> MutexGuard<'_, NetInner> {
         self.0.lock().unwrap_or_else(|e| e.into_inner())
+    }
+
+    /// the executor is about to poll a task
+    pub fn begin_task_poll(&self) {
+        self.lock().calls_this_poll = 0;
+    }
+
+    /// Every transport entry point counts itself. A single poll of an h3 future that calls the transport a million times
+    /// without returning is spinning (every call here returns at once): the panic ends that poll and is reported as a
+    /// finding of the polled task ("LIVELOCK"), not as a fault of the harness.
+    pub fn tick(&self, what: &str) {
+        let n = {
+            let mut g = self.lock();
+            g.calls_this_poll += 1;
+            g.calls_this_poll
+        };
+        if n > 1_000_000 {
+            self.lock().calls_this_poll = 0;
+            panic!("LIVELOCK: one poll called the transport more than 1000000 times without returning (last call: {what})");
+        }
     }
 
     pub fn conn(&self, side: Side) -> SimConn {
@@ -585,6 +608,7 @@ fn conn_err_stream(e: ConnectionErrorIncoming) -> StreamErrorIncoming {
 }
 
 fn poll_open(net: &Net, side: Side, dir: Dir, cx: &mut Context<'_>) -> Poll<Result<u64, StreamErrorIncoming>> {
+    net.tick("poll_open");
     let mut g = net.lock();
     if let Some(e) = g.ends[side.idx()].conn_error() {
         return Poll::Ready(Err(conn_err_stream(e)));
@@ -603,6 +627,7 @@ fn poll_open(net: &Net, side: Side, dir: Dir, cx: &mut Context<'_>) -> Poll<Resu
 }
 
 fn poll_accept(net: &Net, side: Side, dir: Dir, cx: &mut Context<'_>) -> Poll<Result<u64, ConnectionErrorIncoming>> {
+    net.tick("poll_accept");
     let mut g = net.lock();
     // streams that were announced before the connection died stay acceptable (quinn does the same)
     if let Some(id) = g.ends[side.idx()].accept_q[dir as usize].pop_front() {
@@ -672,6 +697,7 @@ impl SimSend {
 
     /// common write path: move up to credit bytes out of `buf`
     fn write_some<D: Buf>(&mut self, cx: &mut Context<'_>, buf: &mut D) -> Poll<Result<usize, StreamErrorIncoming>> {
+        self.net.tick("write");
         let mut g = self.net.lock();
         if let Some(e) = g.ends[self.side.idx()].conn_error() {
             return Poll::Ready(Err(conn_err_stream(e)));
@@ -740,6 +766,7 @@ impl quic::SendStream<Bytes> for SimSend {
     }
 
     fn poll_finish(&mut self, _cx: &mut Context<'_>) -> Poll<Result<(), StreamErrorIncoming>> {
+        self.net.tick("poll_finish");
         let mut g = self.net.lock();
         if let Some(e) = g.ends[self.side.idx()].conn_error() {
             // quinn: finish() on a lost connection is ClosedStream/ConnectionLost
@@ -809,6 +836,7 @@ impl quic::RecvStream for SimRecv {
     type Buf = Bytes;
 
     fn poll_data(&mut self, cx: &mut Context<'_>) -> Poll<Result<Option<Bytes>, StreamErrorIncoming>> {
+        self.net.tick("poll_data");
         let mut g = self.net.lock();
         let cerr = g.ends[self.side.idx()].conn_error();
         let p = g.pipes.get_mut(&(self.id, self.side.other())).expect("pipe");
